@@ -33,7 +33,9 @@ CHECKS.update({
     "C01": (True, "symbolic abstract interpretation to normal forms (cost-matrix blocks, tiling for all sizes) + CFG/def-use "
                   "site rules on the threshold search",
             CLAUSE + "Decides BN-COST, BN-TILE (slice stores, paired index-array diagonal stores, pre-filled base with explicit "
-            "corner), BN-FILTER/WARN, BN-THRESH, BN-PERFECT, BN-BISECT, BN-ORDER, BN-EMPTY: the "
+            "corner), BN-GRAPH (the graph handed to the matching library is {(r, c): D[r, c] <= d} cell by cell — sets of columns "
+            "are membership predicates, compared with the thresholded matrix on sizes up to 3+3 with d at / between / below the "
+            "entries), BN-FILTER/WARN, BN-THRESH, BN-PERFECT, BN-BISECT, BN-ORDER, BN-EMPTY: the "
             "augmented matrix is the statement's cost model for every size, and the search's structural invariants hold. "
             "Declines: optimality of binary search + Hopcroft-Karp, float ties.",
             SYMNOTE + "Hopcroft-Karp returns a maximum matching (dict with both directions).", "DESIGN.md §4 C01"),
@@ -56,7 +58,8 @@ CHECKS.update({
 CHECKS.update({
     "C06": (True, "symbolic evaluation with the matching flag left symbolic (non-interference), provenance of row entries, "
                   "identity testing of derived index expressions",
-            CLAUSE + "Decides MT-NONINT, MT-COST, MT-MINUS1, MT-DROP, MT-COVER, MT-PROV for both functions, whether the rows are "
+            CLAUSE + "Decides MT-NONINT, MT-COST, MT-MINUS1, MT-DROP, MT-COVER, MT-PROV, MT-GRAPH (the matching is searched in the "
+            "thresholded matrix itself, not its transpose or a relabelling) for both functions, whether the rows are "
             "appended one by one or built as a whole table (arange / where / column_stack / masks / stacked slices: the "
             "obligations are read off the element expression of every part, the listing condition is the union of the parts' "
             "row domains). Declines: that max/sum of "
@@ -175,12 +178,16 @@ CHECKS.update({
 
 CHECKS.update({
     "C09": (True, "inter-procedural effect/ownership analysis over all landscape operators and tools, CFG dominance of the "
-                  "lazy-cache stores, symbolic execution of the unary operators, mismatch guards decided on the path "
+                  "lazy-cache stores, symbolic execution of the unary operators, abstract interpretation of the slope merge over the "
+                  "finite domain of breakpoint orderings (bounded list lengths), mismatch guards decided on the path "
                   "condition of the statement returning the sum (operands with independent symbolic grids), site rules for "
                   "padding/re-sampling on the helper-inlined view",
-            CLAUSE + "Decides AR-EFFECT, AR-OWN, AR-LAZY, AR-GUARD, AR-UNARY, AR-PAD, AR-SNAP. Declines: correctness of the "
-            "slope merge (sum_slopes / pos_to_slope_interp / slope_to_pos_interp) of exact landscapes for coincident abscissae "
-            "and sign changes.",
+            CLAUSE + "Decides AR-EFFECT, AR-OWN, AR-LAZY, AR-GUARD, AR-UNARY, AR-PAD (evaluator-based: what union_vals / "
+            "union_crit_pairs return for operands of different depth), AR-SNAP, AR-LC, AR-DEFAULT, and — BOUNDED — AR-MERGE: the "
+            "slope merge (pos_to_slope_interp / sum_slopes / slope_to_pos_interp through union_crit_pairs) is followed for every "
+            "ordering class (interleaving with ties) of the breakpoints of two depths with up to 3 breakpoints each (thorough: "
+            "4; 126 / 787 classes), symbolic ordinates, and equals f_A + f_B at every breakpoint of the union. Declines: the "
+            "merge for operands with more breakpoints than the bound.",
             SYMNOTE + "Result objects may share un-mutated depth lists with operands (reported, not a violation).",
             "DESIGN.md §4 C09"),
 })
